@@ -20,19 +20,32 @@ def sh(cmd, cwd=None, timeout=3600):
     return p.returncode, p.stdout
 
 
-def suite(wt):
-    code, out = sh("cargo test --workspace --no-fail-fast --offline 2>&1", cwd=wt)
+def suite(wt, cfg=""):
+    code, out = sh(f"cargo test --workspace --no-fail-fast --offline{cfg} 2>&1", cwd=wt)
     passed = sum(int(m.group(1)) for m in re.finditer(r"test result: \w+\. (\d+) passed", out))
     failed = sum(int(m.group(1)) for m in re.finditer(r"test result: \w+\. \d+ passed; (\d+) failed", out))
     return code, passed, failed, out
 
 
+WT_PREFIX = os.environ.get("SEED_WT", "/tmp/wt-")
+ID_SUFFIX = os.environ.get("SEED_SUFFIX", "")
+
+
 def verify(cid, n):
-    wt = f"/tmp/wt-{cid}"
+    wt = f"{WT_PREFIX}{cid}"
     out = f"{wt}/out"
     patch = f"{out}/patch{n}.diff"
     demo = f"{out}/demo{n}.rs"
-    res = {"id": f"{cid}-{n}", "patch": patch, "demo": demo}
+    res = {"id": f"{cid}{ID_SUFFIX}-{n}", "patch": patch, "demo": demo}
+    metas = json.load(open(f"{out}/meta.json"))
+    if isinstance(metas, dict):
+        metas = [metas]
+    m = next((x for x in metas if str(x.get("patch", "")).endswith(f"patch{n}.diff")), {})
+    derive = bool(m.get("needs_derive_patch")) or "epserde-derive/" in open(patch).read()
+    cfg = f""" --config 'patch.crates-io.epserde-derive.path="{wt}/epserde-derive"'""" if derive else ""
+    res["derive_patch_flag"] = derive
+    if derive:
+        shutil.copy(f"{wt}/Cargo.lock", f"{wt}/Cargo.lock.bak")
     sh("git checkout -- . ", cwd=wt)
     crate_demo = os.path.isdir(f"{out}/demo{n}_crate")
     tname = f"zz_seed_demo_{cid.lower()}_{n}"
@@ -42,7 +55,7 @@ def verify(cid, n):
         if crate_demo:
             return sh("cargo run --offline 2>&1", cwd=f"{out}/demo{n}_crate")
         shutil.copy(demo, tfile)
-        c, o = sh(f"cargo test -p epserde --test {tname} --offline 2>&1", cwd=wt)
+        c, o = sh(f"cargo test -p epserde --test {tname} --offline{cfg} 2>&1", cwd=wt)
         os.remove(tfile)
         return c, o[-3000:]
 
@@ -55,12 +68,14 @@ def verify(cid, n):
         res["apply"] = "FAILED: " + o
         return res
     res["files_changed"] = sh("git diff --stat | tail -1", cwd=wt)[1].strip()
-    sc, p, f, so = suite(wt)
+    sc, p, f, so = suite(wt, cfg)
     res["suite_with_patch"] = {"passed": p, "failed": f, "exit": sc}
     c1, o1 = run_demo()
     res["demo_with_patch"] = "fail" if c1 != 0 else "PASSES (bad)"
     res["demo_with_patch_tail"] = o1[-600:]
     sh("git checkout -- . ", cwd=wt)
+    if derive:
+        shutil.copy(f"{wt}/Cargo.lock.bak", f"{wt}/Cargo.lock")
     res["valid"] = (c0 == 0 and c1 != 0 and f == 0 and p >= 84 and sc == 0)
     return res
 
@@ -91,9 +106,9 @@ def main():
         print(json.dumps(evaluate(sys.argv[2], checks), indent=1))
     elif cmd == "keep":
         cid, n = sys.argv[2], sys.argv[3]
-        d = f"/verif/seeded/{cid}-{n}"
+        d = f"/verif/seeded/{cid}{ID_SUFFIX}-{n}"
         os.makedirs(d, exist_ok=True)
-        out = f"/tmp/wt-{cid}/out"
+        out = f"{WT_PREFIX}{cid}/out"
         shutil.copy(f"{out}/patch{n}.diff", f"{d}/patch.diff")
         if os.path.exists(f"{out}/demo{n}.rs"):
             shutil.copy(f"{out}/demo{n}.rs", f"{d}/demo.rs")
@@ -105,7 +120,7 @@ def main():
         m = next((x for x in metas if str(x.get("patch", "")).endswith(f"patch{n}.diff")), metas[min(int(n) - 1, len(metas) - 1)])
         meta = {"property": cid, "agent_meta": m}
         for extra in ("verify", "eval"):
-            p = f"/verif/work/seed/{cid}-{n}.{extra}.json"
+            p = f"/verif/work/seed/{cid}{ID_SUFFIX}-{n}.{extra}.json"
             if os.path.exists(p):
                 meta[extra] = json.load(open(p))
         json.dump(meta, open(f"{d}/meta.json", "w"), indent=1)
